@@ -37,6 +37,7 @@ FIXED = [
  ("C07", "F5a", "replays/C07-F5a-copy-fresh-id.json"),
  ("C09", "F9", "replays/C09-F9-local-clustering.json"),
  ("C10", "F10", "replays/C10-F10-bipartite-order.json"), ("C10", "F11", "replays/C10-F11-sc-net-attrs.json"),
+ ("C11", "F12", "replays/C11-F12-incidence-1xm.json"), ("C11", "F11", "replays/C11-F11-hif-sc-net-attrs.json"),
  ("C04", "F5a", "replays/C04-F5a-idx0.json"), ("C04", "F5b", "replays/C04-F5b-bulk-desc.json"),
  ("C04", "F5c", "replays/C04-F5c-df.json"), ("C04", "F5c", "replays/C04-F5c-dh-bipartite.json"),
 ]
